@@ -94,7 +94,9 @@ with pinfix (n : nat) (f : ifn) (l : expr) (p : ps) : res (expr * ps) :=
                        else let '(ok2, p) := expect_peek p IDENT in
                             if ok2 then Some (EBetween t l lo (EIdent (cur p)), p) else Some (ENil, p)
     | IIn => let '(ok, p) := expect_peek p LPAREN in
-             if ok then let t := cur p in do '(a, p) <- pargs n p; Some (EIn t l a, p) else Some (ENil, p)
+             if ok then let t := cur p in do '(a, p) <- pargs n p;
+                        Some (EIn t l a, match a with Some [] => add_err p | _ => p end)    (* IN needs an operand (fix b073bc3) *)
+             else Some (ENil, p)
     end
   end
 with pargs (n : nat) (p : ps) : res (option (list expr) * ps) :=
